@@ -36,11 +36,21 @@ def chStrs : Change → List String
   | .addTable n => [s!"addTable {n}"]
   | .modifyTable n cs => cs.map (fun c => s!"{n}:{tchStr c}")
 
-/-- op "diff.schema": {from:[table], to:[table]} -/
+def kindOf : String → Option Kind
+  | "add_table" => some .addTable | "drop_table" => some .dropTable | "modify_table" => some .modifyTable
+  | "add_column" => some .addColumn | "drop_column" => some .dropColumn | "modify_column" => some .modifyColumn
+  | "add_index" => some .addIndex | "drop_index" => some .dropIndex | "modify_index" => some .modifyIndex
+  | "add_foreign_key" => some .addFK | "drop_foreign_key" => some .dropFK | "modify_foreign_key" => some .modifyFK
+  | "add_check" => some .addCheck | "drop_check" => some .dropCheck | "modify_check" => some .modifyCheck
+  | "add_primary_key" => some .addPK | "drop_primary_key" => some .dropPK | "modify_primary_key" => some .modifyPK
+  | _ => none
+
+/-- op "diff.schema": {from:[table], to:[table], skip?:[kind]} -/
 def handleDiffSchema (j : Json) : Json :=
   let frm := (arr j "from").map parseDTable
   let to := (arr j "to").map parseDTable
-  Json.mkObj [("changes", jstrs ((schemaDiff frm to).flatMap chStrs))]
+  let sk := (strs j "skip").filterMap kindOf
+  Json.mkObj [("changes", jstrs ((skipDiff sk (schemaDiff frm to)).flatMap chStrs))]
 
 def ochStr : OChange → String
   | .dropObject n => s!"dropObject {n}" | .modifyObject n => s!"modifyObject {n}" | .addObject n => s!"addObject {n}"
